@@ -28,7 +28,7 @@
     only.  The concurrent stage of the check (the real completion handler called from several goroutines against
     the real run loop, props/c07.py conc_stage) is what ties this hypothesis to the code. *)
 From Coq Require Import List ZArith Bool Arith Lia.
-From V Require Import Slots.Model Slots.ProofsKv Slots.ProofsWin Slots.WSlots Slots.WBatch Slots.WRef Slots.WNoFail Slots.WTerm Slots.WCap Slots.Llama Slots.LlamaProofs.
+From V Require Import Slots.Model Slots.ProofsKv Slots.ProofsWin Slots.WSlots Slots.WBatch Slots.WRef Slots.WNoFail Slots.WTerm Slots.WCap Slots.Llama Slots.LlamaProofs Slots.Wrap Slots.WWrap.
 Import ListNotations.
 Open Scope Z_scope.
 
@@ -381,4 +381,93 @@ Example C07_llama_example :
   let cfg := mkCfg 4 8 false true true true (-1) None (-1) in
   let st := lrun cfg (linit 1) [LLoad [1;2] true; LDecode 0 [1;2]; LDecode 0 [3;4]; LShift 0 1; LDecode 0 [5]] in
   map (fun s => (s_inputs s, s_inuse s)) (l_slots st) = [([1;3;4;5], true)] /\ view (l_kv st) 0 = [(0,1);(1,3);(2,4);(3,5)].
+Proof. vm_compute. split; reflexivity. Qed.
+
+(** * A wrapper of caches behind the runner (kvcache/wrapper.go; gemma2/gemma3: sliding-window cache for the local layers +
+    causal cache for the global layers)
+
+    Model: Slots/Wrap.v.  [w_run F (w_init cfgs parallel) ops] is the state after a history: one (configuration, single-cache
+    state) per wrapped cache; [cfgs] gives every wrapped cache its own window (None: causal) and capacity; the joint
+    decisions are WrapperCache.CanResume = conjunction of all answers, a partial Remove succeeds only if it succeeds in
+    every cache, StartForward fails if any cache is full; the network [F] is a function of the histories ALL caches expose.
+
+    After any history EVERY wrapped cache holds, for every slot, exactly the recorded inputs from some position [lo] on,
+    and for a slot in use nothing else and at least the window before its next position - i.e. exactly what evaluating
+    the recorded inputs on a fresh runner leaves in that cache within the window the next token attends to.  In
+    particular after a slot is reused (LoadCacheSlot after CanResume = true, on the same slot or on a forked one).
+    Hypotheses as for [C07_slot_matches_cache], per wrapped cache.  (That all components carry the same slot records and
+    sequences is not part of this statement; it is compared on every run, Slots/Wrap.v [chk_from_w].) *)
+Theorem C07_wrapper_slot_matches_every_cache :
+  forall (F : list (Z * tok) -> tok) cfgs parallel ops,
+    Forall (fun cfg => 1 <= numCtx cfg /\ win_ok cfg) cfgs ->
+    Forall (fun o => Forall (fun cfg => op_guard cfg o) cfgs) ops ->
+    let cs := w_run F (w_init cfgs parallel) ops in
+    map fst cs = cfgs /\
+    forall cfg st, In (cfg, st) cs ->
+      forall i, (i < length (slots st))%nat ->
+        let s := nth_slot (slots st) i in
+        exists lo, (window cfg = None -> lo <= 0) /\
+          filter (fun e => fst e <? zlen (s_inputs s)) (view (kv st) i) = wenum lo (s_inputs s) /\
+          (s_inuse s = true -> view (kv st) i = wenum lo (s_inputs s) /\ lo <= wlo cfg (zlen (s_inputs s))).
+Proof.
+  intros F cfgs parallel ops Hc Hg cs.
+  destruct (w_run_ok F ops (w_init cfgs parallel)) as [Hi He].
+  - unfold wcfg_ok, w_init. apply Forall_map. cbn [fst]. exact Hc.
+  - rewrite Forall_forall in *. intros o Ho. unfold wguard, w_init. apply Forall_map. cbn [fst]. apply Hg. exact Ho.
+  - apply w_init_inv.
+  - fold cs in Hi, He. rewrite w_init_cfgs in He. split; [exact He|].
+    intros cfg st Hin i Hlt. unfold winv in Hi. rewrite Forall_forall in Hi. destruct (Hi _ Hin) as [Hm _]. cbn [fst snd] in Hm.
+    exact (inv_slots_ok _ _ _ _ _ Hm i Hlt).
+Qed.
+Print Assumptions C07_wrapper_slot_matches_every_cache.
+
+(** The conjunction matters: if a wrapped cache is made to resume whenever SOME wrapped cache says yes ([w_submit_any]:
+    "any" instead of "all" in WrapperCache.CanResume), the statement is false.  Witness: window 2 + causal, one slot; a
+    request [1;2;3] generates 6 tokens (the window cache then holds positions 6..8 only); a second request shares the
+    prefix [1;2;3]: the causal cache says it can resume at 3, the slot records [1;2;3] as cached, Remove(3, end) empties
+    the window cache: the local layers see none of the reused prefix. *)
+Definition C07_wrapper_resume_any_full : Prop :=
+  forall (F : list (Z * tok) -> tok) cfgs parallel ops prompt np keep stops,
+    Forall (fun cfg => 1 <= numCtx cfg /\ win_ok cfg) cfgs ->
+    Forall (fun o => Forall (fun cfg => op_guard cfg o) cfgs) ops ->
+    Forall (fun cfg => shift_guard cfg keep) cfgs ->
+    let cs := fst (w_submit_any (w_run F (w_init cfgs parallel) ops) prompt np keep stops) in
+    forall cfg st, In (cfg, st) cs -> slots_ok cfg (kv st) (slots st).
+
+Definition wrap_cfgs : list config :=
+  [mkCfg 16 4 false true true true (-1) (Some 2) (-1); mkCfg 16 4 false true true true (-1) None (-1)].
+Definition wrap_ops : list op := Submit [1; 2; 3] 6 0 [] :: repeat Step 8.
+
+Theorem C07_wrapper_resume_any_refuted : ~ C07_wrapper_resume_any_full.
+Proof.
+  intro H. pose proof (H (hash_vis 6) wrap_cfgs 1%nat wrap_ops [1; 2; 3; 0] 2 0 []) as H1. clear H.
+  assert (Hc : Forall (fun cfg => 1 <= numCtx cfg /\ win_ok cfg) wrap_cfgs).
+  { repeat constructor; cbn; try lia; intros w Hw; inversion Hw; lia. }
+  assert (G0 : forall cfg, shift_guard cfg 0) by (intro; right; left; reflexivity).
+  assert (Hg : Forall (fun o => Forall (fun cfg => op_guard cfg o) wrap_cfgs) wrap_ops).
+  { apply Forall_forall. intros o Ho. destruct Ho as [<-|Ho]; [|apply repeat_spec in Ho; subst o];
+      apply Forall_forall; intros cfg _; cbn [op_guard]; [apply G0|exact I]. }
+  assert (Hk : Forall (fun cfg => shift_guard cfg 0) wrap_cfgs) by (apply Forall_forall; intros; apply G0).
+  specialize (H1 Hc Hg Hk). cbv zeta in H1.
+  assert (Hf : exists cfg st r,
+             fst (w_submit_any (w_run (hash_vis 6) (w_init wrap_cfgs 1) wrap_ops) [1; 2; 3; 0] 2 0 []) = (cfg, st) :: r /\
+             window cfg = Some 2 /\ length (slots st) = 1%nat /\ s_inuse (nth_slot (slots st) 0) = true /\
+             s_inputs (nth_slot (slots st) 0) = [1; 2; 3] /\ view (kv st) 0 = []).
+  { vm_compute. do 3 eexists. split; [reflexivity|]. vm_compute. repeat split; reflexivity. }
+  destruct Hf as (cfg & st & r & E & Hw & Hl & Hu & Hin & Hv).
+  destruct (H1 cfg st ltac:(rewrite E; left; reflexivity) 0%nat ltac:(lia)) as (lo & _ & _ & Huse).
+  destruct (Huse Hu) as [Hview Hlo]. rewrite Hv, Hin in Hview. rewrite Hin in Hlo. unfold wlo in Hlo. rewrite Hw in Hlo.
+  change (lo <= Z.max 0 (3 - 2)) in Hlo.
+  assert (Hmem : In (2, 3) (wenum lo [1; 2; 3])).
+  { unfold wenum. apply filter_In. split; [cbn; auto|]. cbn [fst]. apply Z.leb_le. lia. }
+  rewrite <- Hview in Hmem. exact Hmem.
+Qed.
+Print Assumptions C07_wrapper_resume_any_refuted.
+
+(** with the conjunction the same history is fine: the window cache refuses, the whole prompt is evaluated again *)
+Example wrapper_resume_all_reprocesses :
+  match fst (w_submit (w_run (hash_vis 6) (w_init wrap_cfgs 1) wrap_ops) [1; 2; 3; 0] 2 0 []) with
+  | (_, st) :: _ => s_inputs (nth_slot (slots st) 0) = [] /\ view (kv st) 0 = []
+  | [] => False
+  end.
 Proof. vm_compute. split; reflexivity. Qed.
